@@ -21,6 +21,13 @@ HARNESS = os.path.join(VERIF, "harness")
 REPLAYS = os.path.join(VERIF, "replays")
 EVIDENCE = os.path.join(VERIF, "evidence")
 NCPU = os.cpu_count() or 4
+if os.path.realpath(REPO) != "/repo":
+    # self-test runs against a scratch copy of the repository (seeded changes, the pinned
+    # tree): keep their scratch, replays and evidence apart from the real ones
+    _tag = os.environ.get("VERIF_RUN_TAG") or hashlib.sha256(REPO.encode()).hexdigest()[:8]
+    RUN = os.path.join(VERIF, "run", "alt-" + _tag)
+    REPLAYS = os.path.join(RUN, "replays")
+    EVIDENCE = os.path.join(RUN, "evidence")
 
 
 class Infra(Exception):
@@ -99,13 +106,15 @@ def build_program(name, config, units, extra_flags=(), libs=()):
     cc, flags = BUILD_CONFIGS[config]
     key = tree_hash([INCLUDE, HARNESS]) + hashlib.sha256(
         json.dumps([name, config, units, list(extra_flags), list(libs), REPO]).encode()).hexdigest()[:8]
-    exe = os.path.join(BUILD, "%s-%s-%s" % (name, config, key))
+    repotag = hashlib.sha256(REPO.encode()).hexdigest()[:6]
+    prefix = "%s-%s-%s-" % (name, config, repotag)
+    exe = os.path.join(BUILD, prefix + key)
     if os.path.exists(exe):
         return exe
     os.makedirs(BUILD, exist_ok=True)
-    # drop stale builds of the same program/config
+    # drop stale builds of the same program/config (for the same repository path)
     for f in os.listdir(BUILD):
-        if f.startswith("%s-%s-" % (name, config)):
+        if f.startswith(prefix):
             p = os.path.join(BUILD, f)
             shutil.rmtree(p) if os.path.isdir(p) else os.remove(p)
     objdir = exe + ".obj"
